@@ -56,7 +56,7 @@ vlastindex(struct initparser *p)
 	return k;
 }
 
-/* verification hook H5: the new entry and the list after initadd linked it in */
+/* verification hook H5: the new entry (str: element size of a string literal, else 0) and the list after initadd linked it in */
 static void
 vinitadd(struct initparser *p, int last, struct init *new)
 {
@@ -76,7 +76,7 @@ vinitadd(struct initparser *p, int last, struct init *new)
 	}
 	vtrace("{\"e\":\"initadd\",\"id\":%d,\"last\":%d,\"at\":%d,\"s\":%llu,\"end\":%llu,\"b\":%d,\"a\":%d,\"str\":%d,\"n\":%d,\"trunc\":%d,\"list\":[%s]}",
 		p->vid, last, at, new->start, new->end, new->bits.before, new->bits.after,
-		new->expr && new->expr->kind == EXPRSTRING, n, trunc, buf);
+		new->expr && new->expr->kind == EXPRSTRING ? (int)new->expr->type->base->size : 0, n, trunc, buf);
 }
 #endif
 
